@@ -75,8 +75,11 @@ def gen_case(rng, flavour):
         h = rng.randrange(nh)
         if x < 0.18:
             lines.append(f"count {h} {hv()}")
-        elif x < 0.40:
+        elif x < 0.36:
             lines.append(f"get {h} {hv()}")
+        elif x < 0.40:
+            kmer = "".join(rng.choice("ACGT") for _ in range(rng.choice([1, 3, 21, 31, 32])))
+            lines.append(f"{rng.choice(['countk', 'getk'])} {h} {kmer}")
         elif x < 0.52:
             k = rng.randint(0, 6)
             lines.append(f"addmany {h} " + " ".join(str(v) for v in sorted(set(hv() for _ in range(k)))))
@@ -112,7 +115,21 @@ def gen_case(rng, flavour):
 # --------------------------------------------------------------------------
 # oracle from the property statement
 
+def khash(kmer):
+    """2-bit encoding of a k-mer, the smaller of forward and reverse complement (the published khmer scheme)"""
+    fw = {"A": 0, "C": 2, "G": 3, "T": 1}
+    rc = {"A": 1, "C": 3, "G": 2, "T": 0}
+    f = r = 0
+    for c in kmer:
+        f = f * 4 + fw[c]
+    for c in reversed(kmer):
+        r = r * 4 + rc[c]
+    return min(f, r)
+
+
 def oracle(case, impl):
+    case = [(f"count {l.split()[1]} {khash(l.split()[2])}" if l.startswith("countk ") else
+             f"get {l.split()[1]} {khash(l.split()[2])}" if l.startswith("getk ") else l) for l in case]
     out = []
     known = {}       # handle -> set of hashes that were stored in it (None = unknown content, e.g. loaded raw)
     params = {}      # handle -> (ksize, size, nt) when built by `new`
